@@ -54,7 +54,8 @@ def mc_plan(tier):
                     continue
                 d_emit = (4 if pname == "empty" else 3) + deep
                 plan.append(("emit_%s_%s_%s" % (layout, kind, pname),
-                             dict(base, Prefix=pre, MaxLen=d_emit, Emit=True, WithLeak=True), "emit", layout))
+                             dict(base, Prefix=pre, MaxLen=d_emit, Emit=True, WithLeak=True, OwnedToo=(pname != "twoseg"),
+                                  HistView=True), "emit", layout))
                 d_ver = (5 if pname == "empty" else 4) + deep
                 plan.append(("ver_%s_%s_%s" % (layout, kind, pname),
                              dict(base, Prefix=pre, MaxLen=d_ver, OwnedToo=(pname == "oneseg"), IncSet=[3],
@@ -82,7 +83,7 @@ def mc_plan(tier):
         for kind in ["opt", "pes"]:
             plan.append(("fit_%s_%s" % (layout, kind),
                          dict(base, Kind=kind, ByteSizes=[24], TypeSet=[(8, 8), (16, 16)], AlignedSet=[((8, 8), 16)], OwnedToo=True,
-                              MinSegSet=[], IncSet=[], Prefix=[AB(5)], MaxLen=5 + deep, MaxLive=4, WithFit=True, Emit=True),
+                              MinSegSet=[], IncSet=[], Prefix=[AB(5)], MaxLen=5 + deep, MaxLive=4, WithFit=True, HistView=True, Emit=True),
                          "emit_fit", layout))
     # a second arena value alive across truncate (both layouts, Vec and file): made, asked, allocated through, dropped
     for layout, base in [("plain", dict(Unify=False, Reserved=0, Cap=96)), ("unify", dict(Unify=True, Reserved=0, Cap=127))]:
